@@ -133,6 +133,67 @@ func (e *env) directed() {
 		}
 	}
 
+	// (4) two inputs controlled by the same address in one transaction: every input carries its own witness, and
+	// the second one is judged on its own (not on the strength of the first)
+	{
+		pl := c.W.StdV2(c.W.Keys[3])
+		var fund *types.SiacoinElement
+		var lock *chaingen.Lock
+		for _, id := range c.S.OrderedSC() {
+			el := c.S.SCEs[id]
+			l := c.W.Locks[el.SiacoinOutput.Address]
+			if l != nil && l.Kind != "uc-unknown-alg" && l.SpendableV2(cs.Index.Height, chaingen.Median(cs)) && el.MaturityHeight <= cs.Index.Height+1 && el.SiacoinOutput.Value.Cmp(types.NewCurrency64(4)) > 0 {
+				ec := el.Copy()
+				fund, lock = &ec, l
+				break
+			}
+		}
+		eb, _, err := c.EmptyBlock()
+		if fund != nil && err == nil {
+			half := fund.SiacoinOutput.Value.Div64(2)
+			t1 := types.V2Transaction{
+				SiacoinInputs:  []types.V2SiacoinInput{{Parent: *fund, SatisfiedPolicy: types.SatisfiedPolicy{Policy: lock.Policy}}},
+				SiacoinOutputs: []types.SiacoinOutput{{Value: half, Address: pl.Addr}, {Value: fund.SiacoinOutput.Value.Sub(half), Address: pl.Addr}},
+			}
+			c.SignV2(cs, &t1, nil)
+			t2 := types.V2Transaction{
+				SiacoinInputs: []types.V2SiacoinInput{
+					{Parent: t1.EphemeralSiacoinOutput(0), SatisfiedPolicy: types.SatisfiedPolicy{Policy: pl.Policy}},
+					{Parent: t1.EphemeralSiacoinOutput(1), SatisfiedPolicy: types.SatisfiedPolicy{Policy: pl.Policy}},
+				},
+				SiacoinOutputs: []types.SiacoinOutput{{Value: fund.SiacoinOutput.Value, Address: types.VoidAddress}},
+			}
+			sh := cs.InputSigHash(t2)
+			good := c.W.Satisfy(pl, sh)
+			t2.SiacoinInputs[0].SatisfiedPolicy = good
+			t2.SiacoinInputs[1].SatisfiedPolicy = good
+			mkb := func(t types.V2Transaction) types.Block {
+				b2 := chaingen.CloneBlock(eb)
+				ensureV2Data(&b2)
+				b2.V2.Transactions = []types.V2Transaction{chaingen.CloneV2(t1), t}
+				return b2
+			}
+			judge("two-inputs-of-one-address-both-signed(control)", "", mkb(chaingen.CloneV2(t2)), "accept")
+			for _, v := range []struct {
+				key string
+				mut func(sp *types.SatisfiedPolicy)
+			}{
+				{"second-input-of-the-same-address-signed-by-another-key", func(sp *types.SatisfiedPolicy) {
+					sp.Signatures = []types.Signature{c.W.Keys[4].SignHash(sh)}
+				}},
+				{"second-input-of-the-same-address-without-a-signature", func(sp *types.SatisfiedPolicy) { sp.Signatures = nil }},
+				{"second-input-of-the-same-address-with-a-damaged-signature", func(sp *types.SatisfiedPolicy) {
+					sp.Signatures = append([]types.Signature(nil), sp.Signatures...)
+					sp.Signatures[0][5] ^= 0x10
+				}},
+			} {
+				t := chaingen.CloneV2(t2)
+				v.mut(&t.SiacoinInputs[1].SatisfiedPolicy)
+				judge(v.key, "a transaction spending two outputs of one address was accepted although only the first input carried a valid signature", mkb(t), "reject")
+			}
+		}
+	}
+
 	// (3) Foundation: an update rotates the management address F -> G; a second update in the same block is
 	// authorized by an input of F only
 	if h >= n.HardforkFoundation.Height {
